@@ -20,7 +20,8 @@ RULE = (
 	'for every keyed array found in the IR of both networks and of state/restriction_mosaic_entry.cats: multisets of 2-5 (thorough: -7) keys drawn '
 	'from a palette with equal keys, keys differing only in high bytes, 0 and maximal values, byte keys with shared prefixes; every permutation '
 	'(sampled above 120); for each: sort() result, idempotence, order independence, serialize() of sorted/unsorted/duplicated arrays, deserialize() '
-	'of byte strings with permuted or duplicated element chunks. distinct = (array, key sequence); all non-trivial.')
+	'of byte strings with permuted or duplicated element chunks; plus sort() of every enclosing value that holds such an array one level down through a struct-typed member '
+	'(NEM multisig transaction -> inner modification transaction). distinct = (array, key sequence); all non-trivial.')
 TRUSTED_BASE = c01.TRUSTED_BASE + ['ripemd_keccak_256 transform: native Lean RIPEMD-160/Keccak in the driver, hashlib + sha3 stand-in in the oracle']
 ASSUMPTIONS = ['state entries other than mosaic restrictions cannot be compiled by the Python generator (util.py crashes on arrays of aliases in unaligned structs) and are covered by the theorems only']
 
@@ -262,6 +263,72 @@ class KeyedArrayCheck:
 				ctx.fail('corr', f'{label}: model and implementation differ on {operation}', dict(ident, model=answer[:300], implementation=expected[:300]))
 
 
+def containers_of(net, type_name):
+	"""(container type, member) pairs: concrete structs with a struct-typed member that can hold a value of `type_name`
+	(the member's type is `type_name` itself or the abstract struct it derives from)."""
+	base = net.types[type_name].get('base')
+	result = []
+	for container in net.order:
+		typedef = net.types[container]
+		if 'struct' != typedef['k'] or typedef['abstract']:
+			continue
+		for field in typedef['fields']:
+			if 'ref' == field['kind']['k'] and field['kind']['ty'] in (type_name, base) and field['cond'] is None:
+				result.append((container, field))
+	return result
+
+
+def nested_sort(ctx, net, engine, type_name, field, rounds):
+	"""sort() of a value that holds the keyed array one level down (NEM multisig transaction -> inner modification transaction):
+	the array must come out ascending there too, as the model's sort (which recurses through struct-typed members) says."""
+	rng = ctx.rng
+	check = KeyedArrayCheck(ctx, net, engine, type_name, field)
+	lines, records = [], []
+	for container, member in containers_of(net, type_name):
+		label = f'{net.name}.{container}.{member["name"]} -> {type_name}.{field["name"]}'
+		for _ in range(rounds):
+			outer = engine.gen.struct_value(container, 0)
+			inner = engine.gen.struct_value(type_name, 1)
+			length = rng.randrange(2, 5)
+			template = engine.gen.value(check.elem, 2)
+			elements = [check.with_key(template, choice, rng) for choice in rng.sample(range(12), length)]
+			keys = [engine.gen.sort_key(check.elem, check.key, element) for element in elements]
+			if len(set(keys)) != len(keys):
+				continue
+			order = list(range(length))
+			while order == sorted(order, key=lambda index: keys[index]):
+				rng.shuffle(order)
+			inner_position = next(index for index, (name, _) in enumerate(inner['f']) if name == field['name'])
+			inner['f'][inner_position][1] = [elements[index] for index in order]
+			outer_position = next(index for index, (name, _) in enumerate(outer['f']) if name == member['name'])
+			outer['f'][outer_position][1] = inner
+			ident = {'network': net.name, 'type': container, 'member': member['name'], 'inner_type': type_name, 'keys': [repr(keys[index]) for index in order], 'value': outer}
+			ctx.case((label, tuple(repr(keys[index]) for index in order)), ident if not records else None)
+			ctx.count(f'nested-sort:{net.name}.{container}')
+			try:
+				obj = net.to_obj(container, outer)
+			except Exception as ex:  # pylint: disable=broad-except
+				ctx.notes.append(f'{label}: container value not constructible ({type(ex).__name__}: {ex})')
+				break
+			obj.sort()
+			result = net.to_wire(container, obj)
+			result_inner = result['f'][outer_position][1]
+			result_keys = [engine.gen.sort_key(check.elem, check.key, element) for element in result_inner['f'][inner_position][1]]
+			if result_keys != sorted(keys):
+				ctx.fail('property', f'{label}: sort() of the enclosing value leaves the keyed array out of order', dict(ident, result_keys=[repr(key) for key in result_keys]))
+			else:
+				try:
+					bytes(obj.serialize())
+				except Exception as ex:  # pylint: disable=broad-except
+					ctx.fail('property', f'{label}: the sorted enclosing value is refused by serialize() ({type(ex).__name__}: {ex})', ident)
+			lines.append(f'sort {net.name} {container} {codec.dumps(outer)}')
+			records.append((codec.dumps(result), ident, label))
+	answers = engine.ask_many(lines)
+	for (expected, ident, label), answer in zip(records, answers):
+		if answer is not None and not (answer.startswith('ok ') and json.loads(answer[3:]) == json.loads(expected)):
+			ctx.fail('corr', f'{label}: model and implementation differ on sort of the enclosing value', dict(ident, model=answer[:300], implementation=expected[:300]))
+
+
 def state_network(ctx):
 	"""Mosaic-restriction state entries, compiled by the real generator."""
 	base = os.path.join(REPO, 'catbuffer', 'schemas', 'symbol')
@@ -292,6 +359,7 @@ def run(ctx):
 			total += 1
 			ctx.count(f'keyed-arrays:{net.name}')
 			KeyedArrayCheck(ctx, net, engine, type_name, field).run(ctx.scale(6, 60), ctx.scale(5, 7))
+			nested_sort(ctx, net, engine, type_name, field, ctx.scale(3, 30))
 	if 0 == total:
 		ctx.fail('corr', 'no keyed array found in the schemas', {})
 
